@@ -5,7 +5,12 @@ For generated X programs (runner/gen_x.py) x inputs on which the reference seman
 defined: the REAL xcmp compiles the source to the file xcmp -o writes (image + debug symbols), the
 REAL hexsim executes it with tracing on (harness/h_sim.cpp `run` with tracing=1), and the names of the
 trace lines whose symbol column is `name+0` are compared, in order, with the call log of `X.run`
-(`calls=` of xsemdriver: every procedure or function instance entered, `main` first).
+(every procedure or function instance entered, `main` first).  The order of the log is demanded only
+where X fixes it: statements, `and`/`or`, and a callee inside an actual before the call it feeds.  Calls
+made while evaluating the operands of one diadic operator, the actuals of one list, or subscript and
+value of `a[i] := e` may come in any order of those positions (X leaves it open, and for pure callees
+the C01 oracle keeps such programs defined): `X.run` emits the log with grouping marks (`ctree=` of
+xsemdriver, `X.mark`), and the trace must be one of the linearisations the marks allow.
 
 Decisions (all checked against xcmp.hpp as it stands, not assumed):
   * `main` IS part of both sequences (the start stub reaches it with `BR main`, first `+0` line).
@@ -57,6 +62,77 @@ def entries_of(stdout_hex):
     return names, n
 
 
+def parse_tree(tokens):
+    """structured call log of X.run -> nested sequence: an item is a name or ('g', [branch, ...]) where
+    each branch is a sequence.  "(" opens a group of positions whose evaluation order X leaves open
+    (operands of a diadic operator other than and/or, an actual list, subscript and value of
+    `a[i] := e`), "|" separates the positions, ")" closes it."""
+    def seq(i):
+        items = []
+        while i < len(tokens) and tokens[i] not in ("|", ")"):
+            if tokens[i] == "(":
+                branches = []
+                i += 1
+                while True:
+                    b, i = seq(i)
+                    branches.append(b)
+                    if i >= len(tokens):
+                        break
+                    if tokens[i] == "|":
+                        i += 1
+                        continue
+                    i += 1          # ")"
+                    break
+                items.append(("g", branches))
+            else:
+                items.append(tokens[i])
+                i += 1
+        return items, i
+    return seq(0)[0]
+
+
+def count_names(items):
+    return sum(1 if isinstance(x, str) else sum(count_names(b) for b in x[1]) for x in items)
+
+
+def ends(items, flat, starts):
+    """positions of `flat` reachable after matching the sequence `items` from any position in `starts`:
+    names in order, the branches of a group in any order (each branch contiguous)."""
+    import itertools
+    cur = set(starts)
+    for it in items:
+        if not cur:
+            return cur
+        if isinstance(it, str):
+            cur = {p + 1 for p in cur if p < len(flat) and flat[p] == it}
+        else:
+            br = [b for b in it[1] if count_names(b) > 0]
+            if len(br) <= 1:
+                cur = ends(br[0], flat, cur) if br else cur
+            else:
+                res = set()
+                for perm in itertools.permutations(br[:6]):
+                    c = cur
+                    for b in perm:
+                        c = ends(b, flat, c)
+                        if not c:
+                            break
+                    res |= c
+                cur = res
+    return cur
+
+
+def open_groups(items):
+    """number of groups in which two or more positions contain calls"""
+    n = 0
+    for it in items:
+        if not isinstance(it, str):
+            if len([b for b in it[1] if count_names(b) > 0]) > 1:
+                n += 1
+            n += sum(open_groups(b) for b in it[1])
+    return n
+
+
 def collapse(names):
     out = []
     for x in names:
@@ -93,7 +169,7 @@ def call_sequence_check(tier, seed, rng):
     todo = [i for i in idx if sexps[i] in binhex]
     lines = [f"run 0 1 1 {SIM_FUEL} 00 {binhex[sexps[i]]} {cases[i][1].hex() or '-'} {cases[i][2]}" for i in todo]
     sims = C.drive_parallel(hs, lines, workdir=True, timeout_per_case=60.0)
-    checked = entries = tracelines = recursive = 0
+    checked = entries = tracelines = recursive = order_open_cases = reordered = 0
     mismatches = []
     skipped = 0
     for i, o in zip(todo, sims):
@@ -102,21 +178,34 @@ def call_sequence_check(tier, seed, rng):
             skipped += 1               # watchdog or fault: C01/C02 territory, not a call-sequence verdict
             continue
         ref = refs[i]
-        want = [x for x in ref.split("calls=", 1)[1].split(",") if x] if "calls=" in ref else []
+        fields = dict(x.split("=", 1) for x in ref.split(" ")[1:] if "=" in x)
+        want = [x for x in fields.get("calls", "").split(",") if x]
+        if fields.get("tracecheck", "ok") != "ok":
+            mismatches.append({"kind": "instrumented reference semantics (X/SemTrace.lean) disagrees with X/Sem.lean",
+                               "source": G.to_source(cases[i][0]), "reference": ref})
+            continue
+        tree = parse_tree([x for x in fields.get("ctree", "").split(",") if x])
         got, n = entries_of(f[8])
         checked += 1
         entries += len(got)
         tracelines += n
         if len(set(want)) < len(want):
             recursive += 1
-        if got != want:
+        og = open_groups(tree)
+        order_open_cases += 1 if og else 0
+        same = len(got) in ends(tree, got, {0}) and len(got) == len(want)
+        if same and got != want:
+            reordered += 1
+        if not same:
             prog, data, files = cases[i]
             mismatches.append({"property": "C15", "clause": "d", "seed": seed, "source": G.to_source(prog), "program": prog,
                                "stdin_hex": data.hex(), "files": files, "reference_calls": want, "trace_entries": got,
-                               "collapsed_equal": collapse(got) == collapse(want),
+                               "collapsed_equal": collapse(got) == collapse(want), "same_multiset": sorted(got) == sorted(want),
+                               "call_tree": fields.get("ctree", ""),
                                "note": "`+0` lines of the real hexsim -t trace vs the call log of X.run"})
     return {"programs": nprog, "cases_defined": len(idx), "compiled": len(binhex), "checked": checked, "skipped_runs": skipped,
-            "procedure_entries_compared": entries, "trace_lines": tracelines, "cases_with_repeated_callee": recursive,
+            "procedure_entries_compared": entries, "cases_with_order_open_calls": order_open_cases,
+            "cases_where_real_order_differs_from_left_to_right": reordered, "trace_lines": tracelines, "cases_with_repeated_callee": recursive,
             "mismatches": mismatches,
             "sample": {"source": G.to_source(cases[todo[0]][0])[:1500], "calls": refs[todo[0]].split("calls=", 1)[-1][:300]} if todo else {}}
 
